@@ -999,97 +999,4 @@ func TestVerifC16RoundTripRace(t *testing.T) {
 // retry period and then delivered by a timer; when the connection is closed later, that operation has already
 // completed its trace - it must not be completed a second time. (Borrows the HTTP/2 exchange driver of the C15
 // harness; waits out the real retry period, hence only a handful of cases.)
-func TestVerifC16RetryTimer(t *testing.T) {
-	en := verifkit.NewEnum(t, "C16RetryTimer")
-	type row struct {
-		Server bool `json:"server"`
-		Extra  bool `json:"extraStream"` // another, normal stream on the same connection
-		Wait   bool `json:"waitOutRetryPeriod"`
-		// PeerEnds: the connection ends the usual way - the peer closes (Read returns EOF), then this side calls Close -
-		// so the tracer learns twice that the connection is gone
-		PeerEnds bool `json:"peerEnds"`
-	}
-	var rows []row
-	for _, server := range []bool{false, true} {
-		for _, extra := range []bool{false, true} {
-			for _, wait := range []bool{true, false} {
-				rows = append(rows, row{server, extra, wait, false})
-			}
-			rows = append(rows, row{server, extra, false, true})
-		}
-	}
-	var mu sync.Mutex // vfBeforeClose is a package variable: one exchange at a time
-	for _, r := range rows {
-		ex := vfExchange{Server: r.Server, GoAwayAt: -1, PeerCloses: r.PeerEnds}
-		ex.Streams = append(ex.Streams, vfStreamSpec{Named: true, Name: 0, Attempt: 1, ReqCT: "application/proto", RespCT: "application/proto",
-			ReqMsgs: []vfMsg{{Payload: []byte("ping")}}, Fault: "refused", FaultAt: 1, RSTCode: 7, Order: []bool{true, false}})
-		if r.Extra {
-			ex.Streams = append(ex.Streams, vfStreamSpec{Named: true, Name: 1, Attempt: 1, ReqCT: "application/proto", RespCT: "application/proto",
-				ReqMsgs: []vfMsg{{Payload: []byte("a")}}, RespMsgs: []vfMsg{{Payload: []byte("b")}}, Trailers: true, Order: []bool{true, false}})
-		}
-		for i := 0; i < 12; i++ {
-			ex.Schedule = append(ex.Schedule, i%2)
-		}
-		mu.Lock()
-		if r.Wait {
-			vfBeforeClose = func() { time.Sleep(retryWait + 500*time.Millisecond) }
-		}
-		traces, err := vfRunExchange(ex, [2][]int{})
-		vfBeforeClose = nil
-		mu.Unlock()
-		var viol error
-		if err != nil {
-			viol = err
-		} else {
-			count := map[string]int{}
-			for _, tr := range traces {
-				count[tr.TestName]++
-			}
-			for name, n := range count {
-				if n != 1 {
-					viol = verifkit.Violf("retry-complete-count", "the operation %q completed its trace %d times (refused stream, no retry, connection closed %v the retry period): want exactly once", name, n, map[bool]string{true: "after", false: "within"}[r.Wait])
-				}
-			}
-			if count[vfTestName(ex.Streams[0])] == 0 {
-				viol = verifkit.Violf("retry-missing-trace", "the refused stream never completed a trace (%+v)", r)
-			}
-		}
-		en.Rec.Observe(r, []string{fmt.Sprintf("server:%v", r.Server), fmt.Sprintf("waited:%v", r.Wait)}, r.Wait)
-		if viol != nil && en.Fail(r, viol) {
-			break
-		}
-	}
-	// a stream refused twice and then served: attempt 2 starts (and is refused) while attempt 1's retry period is still
-	// running, attempt 3 is served after attempt 1's period has run out but within attempt 2's. The operation completes
-	// its trace exactly once, with the served attempt.
-	for _, server := range []bool{false, true} {
-		ex := vfExchange{Server: server, GoAwayAt: -1, Schedule: []int{0}}
-		for attempt := 1; attempt <= 3; attempt++ {
-			sp := vfStreamSpec{Named: true, Name: 0, Attempt: attempt, ReqCT: "application/proto", RespCT: "application/proto",
-				ReqMsgs: []vfMsg{{Payload: []byte("ping")}}, RespMsgs: []vfMsg{{Payload: []byte("pong")}}, Trailers: true, Order: []bool{true, false, true, false}}
-			if attempt < 3 {
-				sp.Fault, sp.FaultAt, sp.RSTCode = "refused", 1, 7
-			}
-			ex.Streams = append(ex.Streams, sp)
-		}
-		mu.Lock()
-		vfPauseBeforeFrame = func(desc string) time.Duration {
-			switch {
-			case strings.HasPrefix(desc, "headers(s1,dir0"):
-				return retryWait / 2
-			case strings.HasPrefix(desc, "headers(s2,dir0"):
-				return retryWait/2 + 400*time.Millisecond
-			}
-			return 0
-		}
-		err := vfC15Check(ex)
-		vfPauseBeforeFrame = nil
-		mu.Unlock()
-		r := map[string]any{"server": server, "scenario": "refused, refused again within the retry period, then served"}
-		en.Rec.Observe(r, []string{fmt.Sprintf("server:%v", server), "double-refusal"}, true)
-		if err != nil && en.Fail(r, err) {
-			break
-		}
-	}
-	en.Done(true)
-}
+func TestVerifC16RetryTimer(t *testing.T) { vfRetryTimerUnit(t, "C16RetryTimer") }
